@@ -367,6 +367,7 @@ theorem thunkBody_spec (s : St) (p : Pending) (d : Nat) (hI : Inv s) (hp : PendO
       | sclose
       | exact hI.g.funcs _ _ (by assumption)
       | exact call_taskOk (by assumption) (by schain) (by assumption) (by assumption) (by assumption)
+      | exact func_env_lt (by assumption) (by schain) (by assumption)
      
 
 end
